@@ -33,6 +33,8 @@ def oracle(case, io):
     takes precedence."""
     if isinstance(io, dict) and "exc" in io:
         return "raised %s" % io["exc"]
+    if io.get("link_errors"):
+        return "targets are not the positions of the items' own stubs: " + io["link_errors"][0]
     ns, ls, mn, mx = L.model_opts(case["py"]["opts"])
     tol = F(1, 10 ** 6)
     known = None
